@@ -377,4 +377,132 @@ theorem change_spec (cfg : Config) (x : Ctx) (c : Nat) (p : Peer) (req params : 
       simp only [hc, h1, h2, Bool.false_eq_true, ↓reduceIte]
       exact refused_sendResponse _ _ _
 
+/-! ## 5. set / call refusals -/
+
+/-- set (`isState = true`) resp. call (`isState = false`) on an unknown path, on a fetch-only
+    element, or on an element of the wrong kind (set on a method, call on a state) is refused: the
+    answer is the stated error, the WHOLE state is as before (no routing entry, no timer, counters
+    untouched) and nothing but that answer — to the requester — is emitted. -/
+theorem set_call_refusals (cfg : Config) (x : Ctx) (c : Nat) (p : Peer) (req params : Json) (path : Bytes)
+    (isState : Bool) (hp : findPeer x.st.peers c = some p) (hwf : WF x.st)
+    (hm : req.getItem (k "method") = some (.str (if isState then k "set" else k "call")))
+    (hparams : req.getItem (k "params") = some params)
+    (hpath : params.getItem (k "path") = some (.str path)) :
+    (absGet x.st path = none →
+      Refused x c (errorFromRequest req INVALID_PARAMS "not exists" path) (parseJsonRpc cfg x c req).1) ∧
+    (∀ i, absGet x.st path = some i → i.fetchOnly = true →
+      Refused x c (errorFromRequest req INVALID_PARAMS "fetchOnly" path) (parseJsonRpc cfg x c req).1) ∧
+    (∀ i, absGet x.st path = some i → i.fetchOnly = false → i.value.isSome ≠ isState →
+      Refused x c (errorFromRequest req INVALID_PARAMS "set/call on element not possible" path)
+        (parseJsonRpc cfg x c req).1) := by
+  have hs := (wf_iff_wfs _).1 hwf
+  have hpp := getParamsAndPath_ok hparams hpath
+  have hinfo := findElement_map_info hs path
+  have hdisp : (handleMethod cfg x p req (if isState then k "set" else k "call")) =
+      setOrCall cfg x p req isState := by
+    cases isState
+    · exact handleMethod_call ..
+    · exact handleMethod_set ..
+  rw [parseJsonRpc_method hp hm, hdisp, setOrCall_eq]
+  simp only [hpp]
+  refine ⟨?_, ?_, ?_⟩
+  · intro hnone
+    cases hfe : findElement x.st path with
+    | none => exact refused_sendResponse _ _ _
+    | some e => rw [hfe, hnone] at hinfo; cases hinfo
+  · intro i hi hfo
+    cases hfe : findElement x.st path with
+    | none => rw [hfe, hi] at hinfo; cases hinfo
+    | some e =>
+      rw [hfe, hi] at hinfo
+      have hie : info e = i := Option.some.inj hinfo
+      have : e.fetchOnly = true := by rw [← hfo, ← hie]; rfl
+      simp only [this, ↓reduceIte]
+      exact refused_sendResponse _ _ _
+  · intro i hi hfo hkind
+    cases hfe : findElement x.st path with
+    | none => rw [hfe, hi] at hinfo; cases hinfo
+    | some e =>
+      rw [hfe, hi] at hinfo
+      have hie : info e = i := Option.some.inj hinfo
+      have h1 : e.fetchOnly = false := by rw [← hfo, ← hie]; rfl
+      have h2 : (isState != e.value.isSome) = true := by
+        have : e.value = i.value := by rw [← hie]; rfl
+        rw [this]
+        simp only [bne_iff_ne, ne_eq]
+        exact fun h => hkind h.symm
+      simp only [h1, Bool.false_eq_true, ↓reduceIte, h2]
+      exact refused_sendResponse _ _ _
+
+/-- what a refusal looks like to a requester whose request carries a string or number id: exactly
+    one new observation, an object with an "error" member sent to the requester -/
+theorem refusal_is_error_response (x x' : Ctx) (c : Nat) (req : Json) (code : Int) (tag : String)
+    (reason : Bytes) (hid : answerable req) (h : Refused x c (errorFromRequest req code tag reason) x') :
+    x'.st = x.st ∧ ∃ j b, x'.out = Obs.send c j b :: x.out ∧ (j.getItem (k "error")).isSome = true := by
+  obtain ⟨j, hj, herr⟩ := errorFromRequest_isSome hid code tag reason
+  refine ⟨h.1, j, (send x c j).2, ?_, herr⟩
+  have := h.2
+  rw [hj] at this
+  exact this
+
+/-! ## 7. who can change the abstraction -/
+
+/-- * a message of `c` (object, batch or garbage) leaves every element not owned by `c` exactly as
+      it was — same entries, same order; whatever changes is an element owned by `c`; and if the
+      step dropped `c` (it is no longer a peer afterwards) exactly `c`'s elements vanished;
+    * a disconnect of `c` removes exactly the elements owned by `c`;
+    * connect and timer expiry never change the abstraction. -/
+theorem step_elems_only_by_requester_or_close (cfg : Config) (s : State) (op : Op) (hwf : WF s) :
+    match op with
+    | .message c _ _ =>
+      (absElems (step cfg s op).1).filter (fun e => e.2.owner != c) =
+        (absElems s).filter (fun e => e.2.owner != c) ∧
+      (findPeer (step cfg s op).1.peers c = none →
+        absElems (step cfg s op).1 = (absElems s).filter (fun e => e.2.owner != c))
+    | .disconnect c _ =>
+      absElems (step cfg s op).1 = (absElems s).filter (fun e => e.2.owner != c)
+    | .connect _ _ _ _ => absElems (step cfg s op).1 = absElems s
+    | .timerFire _ _ => absElems (step cfg s op).1 = absElems s := by
+  have hs := (wf_iff_wfs _).1 hwf
+  cases op with
+  | message c msg o =>
+    dsimp only
+    obtain ⟨hs', hoth⟩ := step_message (cfg := cfg) (c := c) (msg := msg) (o := o) hs
+    refine ⟨absElems_others hs hs' hoth, ?_⟩
+    intro hgone
+    rw [filter_conn_of_gone hgone] at hoth
+    exact absElems_closed hs hoth
+  | disconnect c o =>
+    dsimp only
+    exact absElems_closed hs (step_disconnect hs).2
+  | connect c ws isLocal addr => exact (step_connect hs).2
+  | timerFire t o => exact absElems_of_store_eq step_timerFire
+
+/-- step-level form of `error_means_unchanged` for an object message: if the step did not drop the
+    requester and some output of the step is an error object, the abstraction is unchanged -/
+theorem error_means_unchanged_step (cfg : Config) (s : State) (c : Nat) (l : List (Bytes × Json)) (o : Oracle)
+    (hwf : WF s)
+    (hlive : (findPeer (step cfg s (.message c (some (.obj l)) o)).1.peers c).isSome = true)
+    (herr : ∃ c' j b, Obs.send c' j b ∈ (step cfg s (.message c (some (.obj l)) o)).2 ∧
+      (j.getItem (k "error")).isSome = true) :
+    absElems (step cfg s (.message c (some (.obj l)) o)).1 = absElems s := by
+  have hs := (wf_iff_wfs _).1 hwf
+  simp only [step] at hlive herr ⊢
+  split at hlive
+  · rename_i h0; simp only [h0, ↓reduceIte]
+  · rename_i h0
+    simp only [h0, Bool.false_eq_true, ↓reduceIte] at herr ⊢
+    simp only [parseMessage] at hlive herr ⊢
+    by_cases hok : (parseJsonRpc cfg (mkCtx s o) c (.obj l)).2 = true
+    · simp only [hok, ↓reduceIte] at herr ⊢
+      obtain ⟨c', j, b, hmem, hj⟩ := herr
+      exact error_means_unchanged cfg (mkCtx s o) c (.obj l) hwf
+        (parseJsonRpc cfg (mkCtx s o) c (.obj l)).1.out (by simp only [mkCtx, List.append_nil])
+        ⟨c', j, b, by simpa using hmem, hj⟩
+    · exfalso
+      simp only [hok, Bool.false_eq_true, ↓reduceIte] at hlive
+      have hw := (parseJsonRpc_own cfg (mkCtx s o) c (.obj l) hs).wfs
+      rw [findPeer_closePeer hw] at hlive
+      cases hlive
+
 end Cjet.Daemon.C04
